@@ -67,7 +67,12 @@ def run_requester(script, qmax, frag):
                     wire.append(d['sid'])
             q = c._request_queue          # whatever container holds the requests waiting for a lease
             queue = [f.stream_id for f in list(getattr(q, '_queue', q))]
-            segments.append({'t0': seg_t0, 'evs': list(evs), 'sent': wire, 'queue': queue, 'refused': list(refused)})
+            segments.append({'t0': seg_t0, 'evs': list(evs), 'sent': wire, 'queue': queue, 'refused': list(refused),
+                             'sent_after': list(marks)})
+
+        def on_wire():
+            return sum(1 for b in t.sent if sim.parse_sent(b)['t'] in REQ_TYPES)
+        marks = []
         seg_t0 = t0
         for step in script:
             now += step[-1]
@@ -79,7 +84,7 @@ def run_requester(script, qmax, frag):
                 loop.settle()
                 conn += 1
                 t = transports[conn]
-                evs, refused = [], []
+                evs, refused, marks = [], [], []
                 seg_t0 = now
                 continue
             if step[0] == 'lease':
@@ -88,6 +93,7 @@ def run_requester(script, qmax, frag):
                 t.inject_frame(f.serialize())
                 loop.settle()
                 evs.append(('lease', step[1], step[2], now))
+                marks.append(on_wire())
             else:
                 kind, size = step[1], step[2]
                 p = Payload(FR.pat(7, 0, size), b'')
@@ -113,6 +119,7 @@ def run_requester(script, qmax, frag):
                     refused.append(sid)
                 evs.append(('req', sid, now))
                 loop.settle()
+                marks.append(on_wire())
         loop.settle()
         close_segment()
         return segments
@@ -146,6 +153,28 @@ def oracle_requester(r, qmax):
     total = sum(max(0, e[1]) for e in evs if e[0] == 'lease')
     if len(sent) > total:
         return 'more requests sent (%d) than granted in total (%d)' % (len(sent), total)
+    # per lease: the number of request frames on the wire is sampled after every event (virtual time only moves between
+    # events), so each send is attributed to the lease in force at that moment
+    marks = r.get('sent_after')
+    if marks and len(marks) == len(evs):
+        cur, used, prev = None, 0, 0
+        for e, m in zip(evs, marks):
+            now = e[-1]
+            if e[0] == 'lease':
+                cur, used = (e[1], e[2], now), 0
+            delta = m - prev
+            prev = m
+            if delta <= 0:
+                continue
+            if cur is None:
+                return 'a request was sent before the first LEASE of this connection'
+            if now >= cur[2] + cur[1] * 1000:
+                return ('%d request(s) sent at t=%d us under LEASE(n=%d, ttl=%d ms) received at t=%d us: its time-to-live had '
+                        'elapsed' % (delta, now, cur[0], cur[1], cur[2]))
+            used += delta
+            if used > cur[0]:
+                return ('%d requests sent under LEASE(n=%d, ttl=%d ms) received at t=%d us: more than it grants'
+                        % (used, cur[0], cur[1], cur[2]))
     return None
 
 
